@@ -90,6 +90,11 @@ CHECKS = {
    technique="TLA+ specification of the documented Go representation (FoRepr.tla: declaration -> Folang text and Go surface as compile-time assertions, enumerated by TLC) checked by the Go compiler against what the real fc emits; foreign calls as programs whose hand-written Go implementations record their arguments, traces validated by TLC against FoSem.tla (a foreign call records all arguments in source order)",
    text="(A) TLC enumerates record / union (generic or not, payload mixes) / top-level function (unit parameter, unit result, function-, tuple-, slice-typed parameters) / variable declarations, derives the Folang text and the documented Go surface as compile-time assertions (struct conversion with exact field names, types and order; U_C{Value}, New_U_C func vs package var; exact func signatures); the declarations are transpiled by the real fc and the Go compiler decides every assertion. (B) package_info functions (package _ or named, arity 0-4, int/unit result, generic with the type parameter in first / last / result position and explicit type argument int/string/any) are called directly, through every partial application and piped; the Go implementations, generated from the declared signature only, log the arguments (and the type argument) they receive; TLC validates the recorded traces against the semantics.",
    note="Trusted: Go compiler for the assertions; FoRepr.tla / FoSem.tla; a named package is provided as a package-level struct of functions (no import), generic foreign functions live in package _."),
+ "C02": dict(
+   category="model_checking", design_ref="4.2", engine="FoInfer",
+   technique="TLA+ specification of unification as a nondeterministic machine (FoInfer.tla; TLC: termination and confluence against a deterministic oracle on constraint sets with sharing, diamonds, clashes and cycles) and of the signature function (principal type, first-occurrence numbering, Go mapping); generated functions with their constraint sets are transpiled by the real fc under every sampled subset of redundant annotations, signatures read back with go/parser and validated by TLC (FoInferTrace.tla)",
+   text="TLC explores every processing order of the unification machine on a family of small constraint sets and checks that all behaviours terminate and agree with the deterministic unifier (verdict and types up to renaming), so the principal type is well defined. For seeded generated functions over the constructs with documented inference (typed arithmetic/comparison, =, library and user generic calls with a fresh instance per use, record/union construction, tuples, slices, destructuring, function-typed parameters, local lambdas returned un-applied) TLC computes the principal type, the T0.. numbering and which parameter annotations are redundant; the real fc must emit exactly that signature for the un-annotated function and byte-identical code for every subset of redundant annotations, and the un-annotated package must type-check in Go.",
+   note="Stage 1 of DESIGN 4.2: the syntax-directed constraint rules live in tools/vlib/infgen.py (Python), not yet in TLA+; the white-box replay of Resolver behaviours is not built. Generic user records/unions are outside the generated profile (their type arguments are not unified by fc: candidate finding, see DESIGN 6). Trusted: go/parser reading of signatures."),
 }
 
 def cmd(pid, tier):
